@@ -74,13 +74,13 @@ ASSUMPTIONS = [
 NOT_APPLICABLE = {}
 
 MANIFEST_TEXT = {
-    "C14": {"level": "Seeded search over schedules of 7 graph topologies built from the standard nodes (function-node chains with queueing / rejecting / lightweight policies and concurrency serial / 2 / unlimited, broadcast + queueing join, buffering sender in front of a rejecting serial node, input_node + limiter with decrement feedback, multifunction routing, continue_node fan-in, async_node completed by a foreign thread) with 1-3 external putting threads, optional concurrent graph::cancel; "
+    "C14": {"level": "Seeded search over schedules of 8 graph topologies built from the standard nodes (function-node chains with queueing / rejecting / lightweight policies and concurrency serial / 2 / unlimited, broadcast + queueing join, buffering sender in front of a rejecting serial node, input_node + limiter with decrement feedback, multifunction routing, continue_node fan-in, async_node completed by a foreign thread, one buffering node feeding a reserving limiter and a rejecting node at once) with 1-3 external putting threads, optional concurrent graph::cancel; "
                      "oracle: per node and message exactly-once processing, concurrent bodies <= limit, sink multiset == accepted multiset, rejected external puts leave nothing in the graph, wait_for_all returns only when no body runs / no reserve_wait is outstanding and nothing starts afterwards.",
             "note": "<= 12 messages and <= 6 nodes per run; UBSan's null check is off in the flow-graph translation units (benign idiom in the tagged buffer, see build.mk)."},
     "C15": {"level": "Seeded search over schedules of one node under test between 1-3 putting threads and a serial recording sink or pulling consumer: queue_node (per-producer FIFO), sequencer_node (any arrival permutation -> 0,1,2,...; numbers below the head rejected), priority_queue_node, join_node queueing / key_matching / reserving (unpaired inputs stay upstream), limiter_node with in-graph decrement feedback and several messages in flight, overwrite_node / write_once_node incl. successors added later, split_node / indexer_node routing, try_reserve / try_release / try_consume conservation.",
             "note": "<= 12 messages per run; the limiter oracle counts forwarded-but-not-yet-decremented messages inside the stage behind the limiter."},
-    "C02": {"level": "Seeded search over schedules, spurious futex wake-ups, wake-order choices, thread-start failures, clock jumps and x86-TSO store-buffer delays of (a) sleeper/notifier programs on the real concurrent_monitor (prepare/re-check/commit vs state-change/notify_all/notify(predicate)) and (b) whole-runtime programs in which enqueued work must run although its submitter never calls a TBB wait: arenas of every small shape, several arenas competing for workers, max_allowed_parallelism=1 (mandatory worker), execute() on saturated arenas (exit monitor), bursts separated by idle phases; "
-                     "verdict = the simulator's deadlock / permanent-livelock criterion under a fair scheduler (no timing assumption) plus predicate-true-on-return checks. Sensitivity shown by removing the seq_cst fence of notify_all/notify: 12 deadlocks in 176k runs.",
+    "C02": {"level": "Seeded search over schedules, spurious futex wake-ups, wake-order choices, thread-start failures, clock jumps and x86-TSO store-buffer delays of (a) sleeper/notifier programs on the real concurrent_monitor (prepare/re-check/commit vs state-change/notify_all/notify(predicate)) and (b) whole-runtime programs in which enqueued work must run although its submitter never calls a TBB wait: arenas of every small shape, several arenas competing for workers, max_allowed_parallelism=1 (mandatory worker), execute() on saturated arenas (exit monitor), bursts separated by idle phases, arenas of different priorities under a 0-2 worker limit with a busy arena that keeps plain demand alive without waiting; "
+                     "verdict = the simulator's deadlock / permanent-livelock criterion under a fair scheduler (no timing assumption) plus predicate-true-on-return checks and, through hook H7, 'an arena with enqueued work and demand is not left without the mandatory worker'. Sensitivity shown by removing the seq_cst fence of notify_all/notify: 12 deadlocks in 176k runs.",
             "note": "liveness is judged as 'no state-changing step possible any more', never as a step budget; fences that are redundant on x86 (followed by a locked instruction) cannot and need not be detected."},
     "C19": {"level": "Seeded search over schedules (incl. x86-TSO delays on the once flag) of 2-6 callers of collaborative_call_once (some from inside task arenas / task_group tasks so that late arrivals help with the winner's nested parallel_for; attempts that throw chosen by a mask) and of 2-8 threads making first accesses to enumerable_thread_specific (both key-usage types) / combinable while the internal table doubles, with threads exiting and new threads arriving; "
                      "oracle: exactly one successful execution, every normal return after it and seeing its write, each exception to exactly one caller, flag callable again; one element per thread from exactly one initialiser call, stable address, no sharing, local(exists) truthful, iteration / combine_each / combine visit each element once.",
@@ -90,8 +90,8 @@ MANIFEST_TEXT = {
             "note": "__TBB_RESUMABLE_TASKS_USE_THREADS is forced to 0 so that the shipped coroutine implementation (not the sanitizer fallback) is simulated."},
     "C16": {"level": "Seeded search over schedules of 1-4 application threads using 1-3 arenas (max_concurrency 1-4, reserved 0-2, three priorities) through execute / enqueue / task_group waits with isolate, on 1-8 simulated CPUs, optionally under global_control(max_allowed_parallelism, 1..4), with observers on every arena; "
                      "oracle inside every body: threads inside an arena <= max_concurrency (+1 for a one-thread arena with enqueued work), pairwise distinct current_thread_index below the bound, reserved slots only held by application threads, isolation scopes respected while waiting, simultaneous workers in user work <= L-1 (mandatory worker allowed when L-1 == 0); observer entry/exit calls paired per thread.",
-            "note": "threads holding a slot without executing a body are not visible to the oracle (it counts bodies); the allotment-sum clause is covered only through oneTBB's internal assertion (known finding recorded)."},
-    "C04": {"level": "Seeded search over schedules (incl. x86-TSO delays on the context objects) of context forests of 2-12 heap-allocated task_group_contexts (bound / isolated) that are bound lazily by nested parallel_for calls exactly as in production, with 1-3 cancel_group_execution calls issued from bodies inside the forest and from external threads, racing with binders, plus a focused scenario (chains of 3-4 bound contexts, store buffers always on, one cancel released just before the target's first child is bound); "
+            "note": "threads holding a slot without executing a body are not visible to the oracle (it counts bodies); the allotment clauses (sum == min(demand, limit), no arena above its request, priority order, mandatory worker goes to an arena with enqueued work) are checked through hook H7 after every allotment update."},
+    "C04": {"level": "Seeded search over schedules (incl. x86-TSO delays on the context objects) of context forests of 2-12 heap-allocated task_group_contexts (bound / isolated) that are bound lazily by nested parallel_for calls exactly as in production, with 1-3 cancel_group_execution calls issued from bodies inside the forest and from external threads, racing with binders, plus a focused scenario (chains of 3-4 bound contexts, store buffers always on, one cancel released just before the target's first child is bound) and a life-cycle scenario (2-3 rounds over the same heap contexts: cancelled contexts reset or carried on, stack-allocated contexts created / bound / destroyed by the bodies while cancellations propagate); "
                      "oracle at quiescence (binder threads still alive): at most one true per context (exactly one if no ancestor was cancelled), every bound context beneath a cancelled one is cancelled, nothing else is, the state persists until reset, task_group resets its own context.",
             "note": "contexts that outlive the thread they were bound on (orphaned context lists) are outside the scenario; the oracle runs while the binder threads are alive."},
     "C03": {"level": "Seeded search over schedules and throw plans: the k-th..k+m-th invocation of {body, Range copy constructor, Range splitting constructor, reduction-body splitting constructor, join} throws a tagged exception inside parallel_for (4 partitioners), parallel_reduce, parallel_for_each, parallel_invoke, parallel_pipeline, task_group (wait / run_and_wait), task_arena::execute and a flow-graph function_node, optionally with a concurrent external cancel; "
@@ -103,7 +103,7 @@ MANIFEST_TEXT = {
     "C18": {"level": "Seeded search over operation sequences, schedules and raw-allocation failure points: the k-th mmap/mremap (single, window or long outage) and the k-th call of a pool's raw allocator fail; extreme sizes/alignments (SIZE_MAX-k, n*size overflow, non-power-of-two, 2^63); growable and fixed memory pools with harness raw callbacks; "
                      "oracle: documented failure reporting (null/errno, ENOMEM/EINVAL), live blocks intact after every failure (shadow heap), recovery once memory is back, pool blocks inside that pool's raw regions, pool_identify, fixed pool calls the raw allocator once, every raw region returned exactly once and never while a block in it is in use.",
             "note": "claimed as exploration (k is sampled per run), not as an exhaustive k-enumeration per trace."},
-    "C10": {"level": "Seeded search over schedules of 2-4 simulated threads doing insert/emplace/find/count/erase (by key and by accessor, holding accessors across schedule points) on the real concurrent_hash_map with identity / constant / low-bit-colliding hashers, 1-2 initial buckets and sequential prefills that park the table at each growth threshold; "
+    "C10": {"level": "Seeded search over schedules of 2-4 simulated threads doing insert/emplace/find/count/erase (by key and by accessor, holding accessors across schedule points) on the real concurrent_hash_map with identity / constant / low-bit-colliding hashers, 1-2 initial buckets and sequential prefills that park the table at each growth threshold, and an erase-dominated theme on one bucket chain with all keys present at the start; "
                      "oracle: per-key Wing-Gong-Lowe linearizability against a sequential map (values carry unique tags), reader/writer holder bookkeeping inside the mapped value, destructor check (no element destroyed under an accessor), size()/traversal/find agreement at quiescence.",
             "note": "<= 22 concurrent operations on <= 6 keys per run; P-compositional per-key checking; SC at atomic-operation granularity."},
     "C11": {"level": "Seeded search over schedules of 2-4 simulated threads doing push_back/emplace_back/grow_by/grow_to_at_least across the first-block decision, segment boundaries and the embedded-to-long table switch; oracle: returned ranges disjoint/contiguous/tiling, each address constructed exactly once (constructor registry), requested values, address stability of sampled elements, grow_to_at_least waits for construction; "
@@ -124,15 +124,15 @@ MANIFEST_TEXT = {
                      "oracle: each item through each filter once and in stage order, common order of all serial_in_order filters, no overlap in serial filters, live items <= token limit at every emission, return only after end of input and retirement of all items.",
             "note": "delays are simulated schedule points, not wall-clock time."},
     "C01": {"level": "Seeded search over schedules of the REAL scheduler (arena, deque, mailbox, task streams, dispatcher, RML workers as simulated threads) running generated task trees "
-                     "(task_group run/run_and_wait/cancel, tasks submitting into their own group, parallel_for with all four partitioners incl. replayed affinity, nested task_arena::execute incl. delegation, enqueue, isolate) "
-                     "on machines of 1-8 CPUs; oracle: per-unit started/finished counters, completeness and visibility at every wait return, functor construction/destruction balance, deadlock/livelock detection; "
+                     "(task_group run/run_and_wait/cancel, tasks submitting into their own group, parallel_for with all four partitioners incl. replayed affinity, nested task_arena::execute incl. delegation, enqueue, isolate), an isolation-window scenario (own-tag under foreign-tag tasks, isolated thieves) "
+                     "and a critical-task-stream scenario (flow-graph nodes with priorities inside/outside isolate, producers stolen by workers) on machines of 1-8 CPUs; oracle: per-unit started/finished counters, completeness and visibility at every wait return, functor construction/destruction balance, deadlock/livelock detection; "
                      "internal assertions + ASan/UBSan live. Exploration (sampling of interleavings) is what the quantifier allows.",
             "note": "SC at atomic-operation granularity; thread start failures, spurious wake-ups, clock jumps injected; plain data races invisible."},
-    "C09": {"level": "Seeded search over schedules of 2-4 simulated threads issuing push/emplace/try_push/pop/try_pop on the real concurrent_queue / concurrent_bounded_queue (3 element size classes, counters pre-advanced to page boundaries, capacities 1-4); "
+    "C09": {"level": "Seeded search over schedules of 2-4 simulated threads issuing push/emplace/try_push/pop/try_pop on the real concurrent_queue / concurrent_bounded_queue (3 element size classes, counters pre-advanced to page boundaries, capacities 1-4, items already stored at the start, capacity set below the current size); "
                      "oracle: Wing-Gong-Lowe linearizability check against a sequential (bounded, blocking) FIFO model, conservation after a final drain, judge-at-quiescence for blocked callers, then abort; "
                      "fault-free runs are judged strictly; runs with a throwing constructor / failing page allocator / concurrent abort() are kept apart and their failures are attributed to the recorded known findings.",
             "note": "histories are capped at 20 concurrent operations + drain; in the abort/throw/alloc modes hangs and history failures are attributed to the known findings by their mode tag, so a new defect that only shows in those modes could be masked."},
-    "C08": {"level": "Seeded search over schedules (and x86-TSO store-buffer delays) of 2-4 simulated threads issuing legal lock/try/upgrade/downgrade sequences against the real mutex code of all 8 lock types; "
+    "C08": {"level": "Seeded search over schedules (and x86-TSO store-buffer delays) of 2-4 simulated threads issuing legal lock/try/upgrade/downgrade sequences against the real mutex code of all 8 lock types (upgrade/downgrade chains on the queue-based rw locks; long critical sections and work after the release for the sleeping locks tbb::mutex / rw_mutex so that waiters register and sleep); "
                      "oracles: holder bookkeeping (mutual exclusion, reader/writer), payload visibility, upgrade truth, try never blocks, queue order by watching the tail word, deadlock/livelock detection for lost hand-offs; "
                      "internal assertions, ASan and UBSan are live in the quick flavour. Exploration is the right level: the property quantifies over interleavings, which are sampled, not enumerated.",
             "note": "SC at atomic-operation granularity (+TSO on the mutex, scoped-lock nodes and payload); RTM variants only on their fallback path; sampling gives evidence, not proof."},
